@@ -14,7 +14,7 @@ namespace GRand
 def Only {α} (P : Err → Prop) (x : RM α) : Prop := ∀ ds e, x ds = .exc e → P e
 
 theorem Only.pure {α} {P : Err → Prop} (a : α) : Only P (pure a : RM α) :=
-  fun ds e h => absurd h (pure_ne_exc _ _ _)
+  fun _ _ h => absurd h (pure_ne_exc _ _ _)
 
 theorem Only.raise {α} {P : Err → Prop} (e : Err) (h : P e) : Only P (RM.raise e : RM α) := by
   intro ds e' h'; rw [raise_exc] at h'; exact h' ▸ h
